@@ -147,7 +147,9 @@ void h_bs_flush(void)
 }
 
 /* ---- C09: the reader ------------------------------------------------------------------------------ */
+#ifndef IN_MAX
 #define IN_MAX 24
+#endif
 static uint8_t verif_in[IN_MAX];   /* the connection's input byte stream */
 static size_t verif_in_len;        /* its total length */
 static size_t verif_delivered;     /* bytes the kernel has handed over so far */
@@ -196,7 +198,7 @@ void h_bs_read_exactly(void)
 	arbitrary_reader_state(&bs);
 	union buffered_socket_reader_context ctx;
 	ctx.num = nondet_size();
-	__CPROVER_assume(ctx.num >= 1 && ctx.num <= 64);
+	__CPROVER_assume(ctx.num >= 1 && ctx.num <= 2 * CONFIG_MAX_MESSAGE_SIZE);
 	size_t consumed0 = verif_consumed, j = nondet_size(), gi = nondet_size();
 	uint8_t *out = NULL;
 	cjet_ssize_t r = get_read_ptr(&bs, ctx, &out);
@@ -211,7 +213,7 @@ void h_bs_read_exactly(void)
 		__CPROVER_assert(ctx.num <= CONFIG_MAX_MESSAGE_SIZE || r == BS_IO_TOOMUCHDATA || r == BS_PEER_CLOSED || r == BS_IO_ERROR || r == BS_IO_WOULD_BLOCK, "C09.exact.oversized-request-never-succeeds");
 	}
 	__CPROVER_assert(rd_inv(&bs, gi), "C09.exact.buffer-still-mirrors-the-stream");
-	VERIF_COVER(r > 0 && ctx.num == CONFIG_MAX_MESSAGE_SIZE && consumed0 > 3, "full-buffer message after compaction");
+	VERIF_COVER(r > 0 && ctx.num == CONFIG_MAX_MESSAGE_SIZE && consumed0 > 1, "full-buffer message after compaction");
 	VERIF_COVER(r == BS_IO_WOULD_BLOCK && verif_delivered > consumed0 + 1, "would block with a partial message buffered");
 	VERIF_COVER(r == BS_IO_TOOMUCHDATA, "too much data");
 }
@@ -251,7 +253,7 @@ void h_bs_read_until(void)
 		__CPROVER_assert(r == BS_PEER_CLOSED || r == BS_IO_WOULD_BLOCK || r == BS_IO_ERROR || r == BS_IO_TOOMUCHDATA, "C09.until.result-code");
 	}
 	__CPROVER_assert(rd_inv(&bs, gi), "C09.until.buffer-still-mirrors-the-stream");
-	VERIF_COVER(r == 5 && consumed0 > 2, "line of 5 bytes");
+	VERIF_COVER(r == 3 && consumed0 > 1, "line of 3 bytes");
 	VERIF_COVER(r == BS_IO_TOOMUCHDATA, "buffer full without delimiter");
 	VERIF_COVER(r == BS_IO_WOULD_BLOCK, "would block");
 }
